@@ -57,7 +57,12 @@ class ArgparseRunner:
         #
         self._language_context = self._create_language_context()
 
-        if self._args.generate_support != "only" and not self._args.list_configuration:
+        # The DSDL front end is skipped only if run() will really do nothing but list the configuration:
+        # --list-outputs and --list-inputs take precedence over --list-configuration there and need the types.
+        only_list_configuration = self._args.list_configuration and not (
+            self._args.list_outputs or self._args.list_inputs
+        )
+        if self._args.generate_support != "only" and not only_list_configuration:
             type_map = read_dsdl_namespace(
                 root_namespace,
                 self._extra_includes,
